@@ -1,5 +1,5 @@
 """C12 — configuration of ./check C12 (PROP) and the MANIFEST claim (CLAIM)."""
-def _judge_drift(drift, run_cases):
+def _judge_drift(drift, run_cases, raw=None):
     """steered sessions (c12.conc) on which the real threads and the interleaving model disagree: the log observed on
     the REAL code is judged by the statements proved in CG.Props.C12conc (driver op c12.judgeconc)"""
     reqs, keep = [], []
